@@ -282,7 +282,13 @@ func pep(shard, n int, kinds []int8, second bool, own bool, emit Emit) {
 func PPromo(shard, n int, emit Emit) { PPromoFiles(shard, n, 8, emit) }
 
 // PPromoFiles: as PPromo with the pawn on files a..(a+files-1) only.
-func PPromoFiles(shard, n int, files int, emit Emit) {
+func PPromoFiles(shard, n int, files int, emit Emit) { ppromo(shard, n, files, false, emit) }
+
+// PPromoOwn: as PPromoFiles, but the piece on the push / capture squares belongs to the pawn's side (a blocked
+// promotion square, "captures" of own pieces); the bare positions are not emitted again.
+func PPromoOwn(shard, n int, files int, emit Emit) { ppromo(shard, n, files, true, emit) }
+
+func ppromo(shard, n int, files int, own bool, emit Emit) {
 	for _, white := range []bool{true, false} {
 		sg := int8(1)
 		r7, r8 := 6, 7
@@ -305,7 +311,9 @@ func PPromoFiles(shard, n int, files int, emit Emit) {
 						continue
 					}
 					p.B[ok], p.B[ek] = sg*K, -sg*K
-					emitBothSides(p, emit, false)
+					if !own {
+						emitBothSides(p, emit, false)
+					}
 					for _, df := range []int{-1, 0, 1} {
 						if f+df < 0 || f+df > 7 {
 							continue
@@ -316,6 +324,9 @@ func PPromoFiles(shard, n int, files int, emit Emit) {
 						}
 						for _, k := range []int8{Q, R, B, N} {
 							p.B[s] = -sg * k
+							if own {
+								p.B[s] = sg * k
+							}
 							emitBothSides(p, emit, false)
 						}
 						p.B[s] = 0
@@ -512,4 +523,92 @@ func flipLR(p *refchess.Pos) *refchess.Pos {
 		q.B[s] = p.B[s/8*8+7-s%8]
 	}
 	return q
+}
+
+// EpEvasionRoots: positions one ply before a pawn's double step gives check and can be answered by capturing that
+// pawn en passant: the pusher's pawn on its initial rank, the checked king diagonally in front of the pawn's target
+// square, a capturer beside the target square, the pusher's king anywhere, one further piece of the pusher {B,R,N,Q}
+// (or none) anywhere; kept when, after the double step, the side in check has at most maxReplies legal replies and an
+// en passant capture is one of them. Both colours. The pusher is to move. Returned as FENs (few hundred positions).
+func EpEvasionRoots(kinds []int8, maxReplies int) []string {
+	var res []string
+	seen := map[string]bool{}
+	for _, white := range []bool{true, false} { // white = pusher colour
+		sg := int8(1)
+		r2, r4 := 1, 3
+		if !white {
+			sg = -1
+			r2, r4 = 6, 4
+		}
+		dir := 1
+		if !white {
+			dir = -1
+		}
+		for f := 0; f < 8; f++ {
+			for _, cf := range []int{f - 1, f + 1} { // capturer file
+				if cf < 0 || cf > 7 {
+					continue
+				}
+				for _, kf := range []int{f - 1, f + 1} { // checked king diagonally in front of the pushed pawn
+					if kf < 0 || kf > 7 {
+						continue
+					}
+					ck := (r4+dir)*8 + kf
+					for pk := 0; pk < 64; pk++ { // pusher's king
+						if !kingsApart(pk, ck) {
+							continue
+						}
+						extras := [][2]int{{0, -1}}
+						for _, k := range kinds {
+							for s := 0; s < 64; s++ {
+								extras = append(extras, [2]int{int(k), s})
+							}
+						}
+						for _, ex := range extras {
+							p := fresh()
+							p.White = white
+							p.B[r2*8+f] = sg * P
+							p.B[r4*8+cf] = -sg * P
+							if p.B[ck] != 0 || p.B[pk] != 0 {
+								continue
+							}
+							p.B[ck], p.B[pk] = -sg*K, sg*K
+							if ex[1] >= 0 {
+								if p.B[ex[1]] != 0 || ex[1] == (r2+dir)*8+f || ex[1] == r4*8+f {
+									continue
+								}
+								p.B[ex[1]] = sg * int8(ex[0])
+							}
+							if !p.Valid() {
+								continue
+							}
+							push, ok := p.FindUci(refchess.SqName(r2*8+f) + refchess.SqName(r4*8+f))
+							if !ok {
+								continue
+							}
+							q := p.Make(push)
+							if !q.InCheck(q.White) {
+								continue
+							}
+							replies := q.LegalMoves()
+							if len(replies) == 0 || len(replies) > maxReplies {
+								continue
+							}
+							hasEp := false
+							for _, m := range replies {
+								if m.Kind == refchess.EnPassant {
+									hasEp = true
+								}
+							}
+							if hasEp && !seen[p.FEN()] {
+								seen[p.FEN()] = true
+								res = append(res, p.FEN())
+							}
+						}
+					}
+				}
+			}
+		}
+	}
+	return res
 }
